@@ -34,6 +34,7 @@ def run(ctx, sess, P, G, T, reach, roots, exc):
     ctx.rule('C10.9', 'reconstruction makes progress: no output block is filled without being counted')
     ctx.rule('C10.10', 'window gates: negative start, start+length beyond the signal and non-positive increment return errors before the caller\'s buffer is touched')
     ctx.rule('C10.11', 'tainted divisor: a divisor derived from a definition parameter is a non-zero constant, directly max(x, c>0), or dominated by a non-zero test')
+    ctx.rule('C10.13', 'allocation results are checked: no dereference of a malloc/calloc/realloc result is reachable while it may be NULL')
     ctx.rule('C10.12', 'no read of uninitialised instance memory: every field of a malloc\'ed instance that is read anywhere is initialised before the instance is published')
     r4(ctx, P)
     r5(ctx, P, reach)
@@ -43,6 +44,7 @@ def run(ctx, sess, P, G, T, reach, roots, exc):
     r9(ctx, P)
     r10(ctx, P)
     r11(ctx, P)
+    r13(ctx, P)
     r12(ctx, P)
 
 
@@ -674,3 +676,49 @@ def fields_loaded(P, rec):
                     if nd.get('op') == 'member' and nd.get('rec') == rec and nd.get('id') != skip:
                         out.setdefault(nd['field'], set()).add(fn.name)
     return out
+
+
+def r13(ctx, P):
+    n = 0
+    for fn in P.all_functions():
+        for ev in fn.calls(('malloc', 'calloc', 'realloc')):
+            var = None
+            st = None
+            for e2 in ev.block.events[ev.idx + 1:]:
+                if e2.k in ('store', 'decl'):
+                    lhs, rhs, o = e2.store_parts()
+                    if rhs is not None and any(nd.get('id') == ev.e.get('id') for nd in walk(rhs)):
+                        var = var_of(fn, lhs)
+                        st = e2
+                    break
+            if var is None:
+                continue
+            n += 1
+            ctx.saw(fn, 1)
+
+            def deref(e):
+                for nd in walk(e):
+                    if nd.get('op') == 'member' and nd.get('arrow') and var_of(fn, nd['k'][0]) == var:
+                        return True
+                    if nd.get('op') == 'sub' and var_of(fn, nd['k'][0]) == var:
+                        return True
+                    if nd.get('op') == 'un' and nd['o'] == '*' and var_of(fn, nd['k'][0]) == var:
+                        return True
+                return False
+
+            def on_event(e2, facts):
+                if e2.k in ('store', 'decl'):
+                    l0 = e2.store_parts()[0]
+                    if var_of(fn, l0) == var and e2 is not st:
+                        return 'stop'
+                if e2.e is not None and deref(e2.e):
+                    return 'target'
+                if e2.k == 'call' and e2.callee in ('memcpy', 'memset', '__builtin_memcpy', '__builtin_memset', '__builtin___memcpy_chk', '__builtin___memset_chk') \
+                        and any(var_of(fn, a) == var for a in e2.args[:2]):
+                    return 'target'
+                return None
+            w = find_path(fn, st, on_event, start_facts=frozenset([(var, 'eq', 0)]),
+                          on_block_end=lambda b, facts: 'target' if (b.cond is not None and deref(b.cond)) else None)
+            ctx.ob('C10.13', w is None, fn.name, '%s result `%s` checked before use' % (ev.callee, var), ev.where(),
+                   'NULL is tested before any dereference' if w is None else 'the result is dereferenced on a path where it may be NULL', w.render() if w else None)
+    ctx.floor('allocation sites bound to a variable', n, 15)
